@@ -92,6 +92,11 @@ VARIANTS = [
          new="    return ((inputs, output), (tuple(size_dict.items()), (optimize, kwargs)))\n"),
     dict(name="twin: kwargs as a sorted tuple", kind="twin", file=I,
          old="    kwargs = frozenset(kwargs.items())\n", new="    kwargs = tuple(sorted(kwargs.items()))\n"),
+    dict(name="F17-reverted: keyed option tested by identity", kind="break", file="cotengra/contract.py",
+         old="        exponent = 0.0 if strip_exponent else None\n", new="        exponent = 0.0 if (strip_exponent is not False) else None\n",
+         expect=("C13-IDENTITY", "strip_exponent")),
+    dict(name="twin: keyed option tested with bool()", kind="twin", file="cotengra/contract.py",
+         old="        exponent = 0.0 if strip_exponent else None\n", new="        exponent = 0.0 if bool(strip_exponent) else None\n"),
 ]
 for v in VARIANTS:
     if v.get("edits"):
